@@ -17,7 +17,8 @@ def S(s):
 THEOREMS = ['C04_B_expand_exact', 'C04_B_tree_tidy', 'C04_collapse_is_expand', 'C04_collapse_total',
             'C04_collapse_explicit', 'C04_collapse_none_refuted', 'C04_A_sound', 'C04_A_sound_root', 'C04_A_added_ok',
             'C04_A_sound_sentence', 'C04_A_complete_partial', 'C04_A_alg_erasure', 'C04_A_alg_families_sound',
-            'C04_A_alg_families_complete', 'C04_A_exact', 'C04_A_complete', 'C04_A_exact_gen', 'C04_A_example', 'C04_example']
+            'C04_A_alg_families_complete', 'C04_A_exact', 'C04_A_complete', 'C04_A_exact_gen', 'C04_A_example',
+            'C04_A_dynamic_erasure', 'C04_A_dynamic_sound', 'C04_A_dynamic_sound_checked', 'C04_A_dynamic_example', 'C04_example']
 GEN_DEPS = []
 RULE = ('random ambiguous grammars (<=4 non-terminals, <=3 alternatives of length <=3, ?rules, _inlined rules, aliases, '
         '[optional] with placeholders, !keep-all rules, filtered anonymous tokens, EBNF * and +), three lexers (basic, '
@@ -34,6 +35,9 @@ RULE = ('random ambiguous grammars (<=4 non-terminals, <=3 alternatives of lengt
         'inlined _rules (ambiguous intermediate node over an ambiguous inlined child, 2-3 levels, ?rules, !rules, filtered and '
         'kept tokens) x 3 lexers x placeholders on/off, same oracle and Coq comparisons; the random generator draws 20% of '
         'its acyclic grammars from the same class (gen_chain_grammar); '
+        'dyn-families stream: the same add_family log comparison for the dynamic lexers (with %ignore carry-over) against '
+        'Forest/ExplicitDynBuild on recorded regex answers, plus the local-form check of every family over the position '
+        'graph of the text; '
         'alg-families stream: every SymbolNode.add_family call of a parse (basic lexer) logged and compared as a set, '
         'with the outcome, with the instrumented executable model evaluated in Coq. '
         'non-trivial = distinct (grammar, lexer, input) whose explicit tree contains at least one _ambig')
@@ -1371,6 +1375,7 @@ def correspond(ctx):
     exotic_f6(ctx, cases, meta, defs)
     check_layer_a(ctx, acases)
     run_alg_families(ctx, ctx.scale(30, 400) * k)
+    run_dyn_families(ctx, ctx.scale(25, 300) * k)
     ctx.extra['layer_A_forests_checked'] = len(acases[0])
     # Coq: the model on the captured forests
     bad, errs = ctx.coq_bad_indices('c04', IMPORTS, 'check_case', cases, chunk=150,
@@ -1454,6 +1459,71 @@ def run_alg_families(ctx, ngrammars):
                           False, 'the set of add_family calls (or the outcome) of lark differs from the instrumented model; '
                                  'the derivation oracle holds on this case')
     ctx.extra['alg_families_cases'] = len(terms)
+
+
+def run_dyn_families(ctx, ngrammars):
+    """stream dyn-families: the add_family log and outcome of real dynamic / dynamic_complete parses (string and simple
+    regexp terminals, half of the grammars with %ignore and inputs with leading/inner/trailing ignored text, a quarter
+    ambiguous at the root) against the instrumented model Forest/ExplicitDynBuild run on oracle tables of the regex
+    engine; in the same Coq evaluation every family of the log must have the local form of dyn_forest_sound over the
+    position graph computed by re.fullmatch on slices of the text"""
+    from lark.exceptions import GrammarError
+    rng = ctx.rng
+    terms, dmeta = [], []
+    made = attempts = 0
+    while made < ngrammars and attempts < ngrammars * 30:
+        attempts += 1
+        lexer = rng.choice(['dynamic', 'dynamic_complete'])
+        opts = {'maybe_placeholders': True, 'keep_all_tokens': False}
+        chars, alpha = [], 'ab'
+        if rng.random() < 0.5:
+            if rng.random() < 0.5:
+                g, alpha = gen_root_ambig_grammar(rng, lexer), 'xy'
+            else:
+                g = gen_grammar(rng, lexer, rng.random() < 0.15)
+            g, chars = add_ignores(rng, g)
+        else:
+            g = gen_grammar(rng, lexer, rng.random() < 0.15)
+        try:
+            parser = with_timeout(lambda: make_parser(g, lexer, **opts))
+        except (GrammarError, Hang):
+            continue
+        made += 1
+        inputs = list(all_inputs(alpha, 3))
+        if chars:
+            inputs += [decorate(rng, t, chars) for t in inputs] + [rng.choice(chars)]
+        for text in inputs:
+            try:
+                code, log = parse_logged_dyn(parser, text)
+            except Hang:
+                continue
+            except Exception:
+                continue            # undocumented exceptions are judged by the other streams
+            term = coq_idcase(parser, lexer, text, code, log)
+            if term is None or len(term) > 60000:
+                continue
+            ctx.count('dyn-families', key=(g, lexer, text), nontrivial=len(log) >= 4 and code == 0,
+                      dyn_outcome=('accept' if code == 0 else 'eof' if code == 1 else 'chars'), dyn_lexer=lexer,
+                      dyn_ignored=('yes' if any(c in text for c in chars) else 'no'))
+            terms.append(term)
+            dmeta.append((g, lexer, text, opts, parser))
+    bad, errs = ctx.coq_bad_indices('c04d', IMPORTS_D, 'idcheck', terms, chunk=150)
+    for e in errs:
+        ctx.violation('correspondence:coq-eval-dyn', {'no_longer_checks': 'Coq evaluation of idcheck', 'error': e}, False, e[:300])
+    for i in bad:
+        g, lexer, text, opts, parser = dmeta[i]
+        cyclic = has_derivation_cycle(parser.rules)
+        obs = run_case(g, lexer, text, parser=make_parser(g, lexer, **opts))
+        verdict = property_verdict(parser, lexer, text, obs, cyclic)
+        if verdict:
+            ctx.violation('property-oracle:%s' % verdict[0], witness(g, lexer, text, opts), True, verdict[1])
+        else:
+            ctx.violation('correspondence:Forest/ExplicitDynBuild.idyn_parse vs xearley add_family log',
+                          dict(witness(g, lexer, text, opts), no_longer_checks='add_family calls / outcome of the dynamic parse = those of the instrumented model, each of the local form that makes the stored trees spell the text'),
+                          False, 'the set of add_family calls (or the outcome) of lark differs from the instrumented dynamic '
+                                 'model, or a family is not a derivation step over the position graph of the text; the '
+                                 'derivation oracle holds on this case')
+    ctx.extra['dyn_families_cases'] = len(terms)
 
 
 def collapse_verdict(tree):
@@ -1712,6 +1782,14 @@ def coq_idcase(parser, lexer, text, code, log):
         seen.add(k)
         fams.append('(%s, (%s, %s, %s))' % (label(lb), rule_term[r], opt(l), opt(rt)))
     nl = lambda xs: '(' + L(['%d' % x for x in sorted(xs)]) + ')%N'
-    return '(%s, %d, %s, %d, %s, %s, %s, %d, %s)' % (
+    # the position graph of the text, by re.fullmatch on slices (no reference to what the parser or its matcher did)
+    import re
+    pats = {td.name: re.compile(td.pattern.to_regexp()) for td in parser.terminals}
+    n = len(text)
+    te = ['(%d, %d, %d)' % (t, i, j) for name, t in tms.items() if name in pats
+          for i in range(n) for j in range(i + 1, n + 1) if pats[name].fullmatch(text, i, j)]
+    ig = sorted({(i, j) for name in parser.ignore_tokens for i in range(n) for j in range(i + 1, n + 1)
+                 if pats[name].fullmatch(text, i, j)})
+    return '(%s, %d, %s, %d, %s, %s, %s, %d, %s, %s, %s)' % (
         L(rules), nt('start'), L(['%d' % x for x in ign]), len(text), B(lexer == 'dynamic_complete'),
-        nl(mt), nl(tt), code, L(fams))
+        nl(mt), nl(tt), code, L(fams), L(te), L(['(%d, %d)' % p for p in ig]))
